@@ -321,6 +321,10 @@ func c01R1(p *Prog, r *Report) {
 			if l.Name == "Op" && len(l.Args) == 1 {
 				if s, ok := constString(info, l.Args[0]); ok && s == ":=" {
 					if c.Root != nil {
+						if nm := idCloneArg(c); nm != nil && i == 1 {
+							check(c, nm, "var")
+							continue
+						}
 						r.Bad(c.Encl.Name()+"/declares via "+exprString(c.Root), p.PosStr(l.Call.Pos()), "`:=` applied to a non-literal left-hand side: the declared identifier cannot be traced to the allocator")
 						continue
 					}
